@@ -441,7 +441,7 @@ theorem parseFiles_alter (h : Hooks) {data data' : Bytes} {lh length : Nat} {f :
 
 /-- does the volume header announce an extended header (as `NewFirmwareVolume` decides)? -/
 def hasExtOf (data : Bytes) : Bool :=
-  decide (rd data 52 2 ≠ 0 ∧ rd data 32 8 ≥ 20 ∧ rd data 52 2 < rd data 32 8 - 20)
+  decide (rd data 52 2 ≠ 0 ∧ rd data 32 8 ≥ 20 ∧ rd data 52 2 ≤ rd data 32 8 - 20)
 
 /-- `fv.DataOffset` as computed from the bytes -/
 def doOf (data : Bytes) : Nat :=
@@ -455,7 +455,7 @@ theorem fvInfoOf_dataOffset (data : Bytes) (blocks : List Block) (off : Nat) (rs
     (fvInfoOf data blocks off rs).dataOffset = doOf data := by
   unfold doOf hasExtOf fvInfoOf
   simp only
-  cases decide (rd data 52 2 ≠ 0 ∧ rd data 32 8 ≥ 20 ∧ rd data 52 2 < rd data 32 8 - 20) <;> rfl
+  cases decide (rd data 52 2 ≠ 0 ∧ rd data 32 8 ≥ 20 ∧ rd data 52 2 ≤ rd data 32 8 - 20) <;> rfl
 
 set_option maxRecDepth 8192 in
 /-- `parseFv` after its guards, for a file system the tool parses -/
